@@ -68,8 +68,11 @@ pub(crate) fn run() -> (Result<(), Error>, Option<StdinLogReader>) {
         let mut server;
         {
             let mut ptx = ProcessTransaction::new(&mut ps, TransactionBehavior::Immediate)?;
+            // What an out-of-band run builds are dependencies of the target it
+            // works for, not of the target whose script happens to be running.
             let f = if !ptx.state().env().target().as_os_str().is_empty()
                 && !ptx.state().env().is_unlocked()
+                && !ptx.state().env().is_out_of_band()
             {
                 let mut me = PathBuf::new();
                 me.push(ptx.state().env().startdir());
